@@ -441,9 +441,11 @@ func (s Server) Serve(c context.Context, conn network.Conn) (err error) {
 			// that goes back to the pool here and may hold another connection's bytes by
 			// the time the tracers, which look at the request in Finish, are called: with
 			// tracers the request keeps a copy of its own.
-			if s.EnableTrace && !ctx.Request.IsBodyStream() && !ctx.Request.HasMultipartForm() {
+			// (BodyBuffer() lets go of the borrowed bytes and leaves everything else,
+			// a parsed multipart form included, as it is)
+			if s.EnableTrace && !ctx.Request.IsBodyStream() {
 				if b := ctx.Request.BodyBytes(); len(b) > 0 {
-					ctx.Request.SetBody(b)
+					ctx.Request.BodyBuffer().Set(b)
 				}
 			}
 			zr.Release() //nolint:errcheck
